@@ -79,8 +79,14 @@ func evalC13(cs *c13Case) (vs []*Violation, ok bool) {
 		vs = append(vs, &Violation{Property: "C13", Site: "ParseSIPMsg", Rule: rule, Class: class, Detail: detail, Case: c})
 	}
 	defer recoverTo3(add)
-	am, an, ae := parseMsgCfg(buf, 40, 40, cs.Flags, -1)
+	am, an, ae := parseMsgCfg(buf, 120, 120, cs.Flags, -1)
 	if ae != 0 {
+		// not a successfully parsed input: only the verdict and the offset are compared (one-shot)
+		if cs.Cut < 0 {
+			if _, n, e := parseMsgReuse(buf, cs.HdrCap, cs.ValCap, cs.Flags, cs.Cut, cs.Reuse); e != ae || n != an {
+				add("verdict-and-offset-independent-of-capacity", errName(e)+"/rejected-with-ample-arrays", fmt.Sprintf("caps %d/%d: (%d,%v) ample: (%d,%v)", cs.HdrCap, cs.ValCap, n, e, an, ae))
+			}
+		}
 		return
 	}
 	ok = true
@@ -231,7 +237,7 @@ func checkC13(r *Run) {
 	msgDrv.init()
 	hdrPool := []string{"From: <sip:a@b>;tag=1\r\n", "To: <sip:c@d>\r\n", "Call-ID: c1@1.2.3.4\r\n", "CSeq: 3 INVITE\r\n", "Via: SIP/2.0/UDP h;branch=z9hG4bK1\r\n", "Max-Forwards: 70\r\n",
 		"Contact: <sip:1@h>;expires=9\r\n", "m: <sip:2@h>;expires=3, <sip:3@h>\r\n", "Contact: \"x\" <sip:4@h>;q=0.2,\r\n <sip:5@h>;expires=100\r\n", "P-Asserted-Identity: <sip:p@q>, <tel:+1>\r\n", "P-Asserted-Identity: <sip:p3@q>,<sip:p4@q>\r\n",
-		"Expires: 50\r\n", "User-Agent:\r\n", "X: y\r\n", "Record-Route:\r\n", "From: <sip:second@x>;tag=2\r\n", "Route: \r\n", "Content-Length: 2\r\n"}
+		"Expires: 50\r\n", "Contact: *\r\n", "User-Agent:\r\n", "X: y\r\n", "Record-Route:\r\n", "From: <sip:second@x>;tag=2\r\n", "Route: \r\n", "Content-Length: 2\r\n"}
 	// messages: all ordered selections of up to 6 header lines would be too many; take every combination of <= K lines in pool order plus rotations
 	var msgs []string
 	K := r.pick(4, 6)
@@ -265,6 +271,26 @@ func checkC13(r *Run) {
 		msgs = m2
 	}
 	msgs = append(msgs, longMsgs[:6]...)
+	// expires summary: every pattern of "has an expires parameter" over four contacts (two headers) x an Expires
+	// header that is absent, smaller or larger than all of them
+	for mask := 0; mask < 16; mask++ {
+		for _, eh := range []string{"", "Expires: 5\r\n", "Expires: 3600\r\n"} {
+			var cv []string
+			for i := 0; i < 4; i++ {
+				v := fmt.Sprintf("<sip:%d@h>", i)
+				if mask>>i&1 == 1 {
+					v += fmt.Sprintf(";expires=%d", 60*(i+1))
+				}
+				cv = append(cv, v)
+			}
+			msgs = append(msgs, "REGISTER sip:r SIP/2.0\r\nCall-ID: e\r\n"+eh+"Contact: "+cv[0]+", "+cv[1]+"\r\nm: "+cv[2]+","+cv[3]+"\r\nl: 0\r\n\r\n")
+		}
+	}
+	// the '*' contact together with other Contact headers, in both orders
+	for _, cl := range []string{"Contact: *\r\n", "Contact: *\r\nContact: <sip:a@192.0.2.1>\r\n", "m: *\r\nX: 1\r\nContact: <sip:a@h>;expires=5\r\nExpires: 9\r\n", "Contact: <sip:a@h>\r\nContact: *\r\n",
+		"Contact: *\r\nContact: <sip:a@h>, <sip:b@h>\r\n", "Contact: *\r\nm: <sip:a@h>\r\nm: <sip:b@h>;expires=1\r\n", "Contact: * \r\nP-Asserted-Identity: <sip:p@q>\r\nContact: <sip:a@h>\r\n"} {
+		msgs = append(msgs, "REGISTER sip:r SIP/2.0\r\nCall-ID: star\r\n"+cl+"l: 0\r\n\r\n")
+	}
 	parallelFor(r, len(msgs), func(c *enumCtx, i int) {
 		msg := msgs[i]
 		nh := strings.Count(msg, "\r\n") // upper bound on the header count
@@ -309,6 +335,64 @@ func checkC13(r *Run) {
 		if any {
 			c.st.States++
 			c.st.Nontrivial++
+		}
+	})
+	// counts that are not small: n = 1..70 contact values (in one header, in two, one per header) and n generic
+	// headers, against capacities around the built-in size (10), around n, none and ample
+	parallelFor(r, 70*4, func(c *enumCtx, k int) {
+		n, shape := k/4+1, k%4
+		var sb strings.Builder
+		sb.WriteString("REGISTER sip:r SIP/2.0\r\nCall-ID: n" + fmt.Sprint(n) + "\r\n")
+		val := func(i int) string { return fmt.Sprintf("<sip:%d@h>;expires=%d", i, 100+i) }
+		switch shape {
+		case 0: // one header
+			sb.WriteString("Contact: ")
+			for i := 0; i < n; i++ {
+				if i > 0 {
+					sb.WriteString(", ")
+				}
+				sb.WriteString(val(i))
+			}
+			sb.WriteString("\r\n")
+		case 1: // two headers, split in the middle, compact second
+			sb.WriteString("Contact: " + val(0))
+			for i := 1; i < n; i++ {
+				if i == (n+1)/2 {
+					sb.WriteString("\r\nX-Between: 1\r\nm: " + val(i))
+				} else {
+					sb.WriteString("," + val(i))
+				}
+			}
+			sb.WriteString("\r\n")
+		case 2: // one value per header
+			for i := 0; i < n; i++ {
+				sb.WriteString("Contact: " + val(i) + "\r\n")
+			}
+		default: // n generic headers and one contact at the end
+			for i := 0; i < n; i++ {
+				fmt.Fprintf(&sb, "X-%d: v%d\r\n", i, i)
+			}
+			sb.WriteString("m: " + val(0) + "\r\n")
+		}
+		sb.WriteString("Content-Length: 0\r\n\r\n")
+		msg := sb.String()
+		for _, hc := range []int{-1, 0, 1, 9, 10, 11, n, n + 1, n + 3, 110} {
+			for _, vc := range []int{-1, 0, 1, 9, 10, 11, n - 1, n, n + 1, 110} {
+				if vc < -1 || (hc != -1 && hc != n+3 && vc != -1 && vc != n) {
+					continue // the full product only along the two axes
+				}
+				for _, reuse := range []bool{false, true} {
+					vs, ok := evalC13(&c13Case{Msg: msg, HdrCap: hc, ValCap: vc, Cut: -1, Reuse: reuse})
+					c.st.Transitions += 2
+					c.st.Evals++
+					if ok {
+						c.st.Outcomes["count-sweep"]++
+					}
+					for _, v := range vs {
+						r.Col.add(v)
+					}
+				}
+			}
 		}
 	})
 	// URI parameter / header lists with P <= 5 items
